@@ -81,6 +81,8 @@
 
 mod input;
 mod output;
+#[cfg(nexosim_verif)]
+pub(crate) use output::verif_broadcaster;
 mod sink;
 mod source;
 
